@@ -15,7 +15,7 @@ for m in sorted(glob.glob('/verif/seeded/*/meta.json')):
 PY
 )
 for s in $seeds; do
-  prop=$(python3 -c "import json;d=json.load(open('/verif/seeded/$s/meta.json'));print(d['detected_by'].split()[0])")
+  prop=$(python3 -c "import json;d=json.load(open('/verif/seeded/$s/meta.json'));import re;print(re.match(r'C[0-9]+',d['detected_by']).group(0))")
   out=$(tools/seedrun.sh /verif/seeded/$s/patch.diff $prop 2>&1)
   n=$(echo "$out" | grep -c "^VIOLATION property=$prop")
   if [ "$n" -ge 1 ]; then echo "ok   $s detected by $prop ($n)"; else echo "MISS $s not detected by $prop"; fail=1; fi
